@@ -435,7 +435,7 @@ class Lab:
                             ents[rel] = ("f", f.read(), st.st_mtime_ns, stat.S_IMODE(st.st_mode))
         inodes = {rel: os.lstat(self.p(rel)).st_ino for rel, e in ents.items() if e[0] in ("f", "h")}
         return dict(ents=ents, versions={k: list(v) for k, v in self.versions.items()}, time=self.time,
-                    t=getattr(self, "_t", 0), cfg=self.cfg, root=self.root, inodes=inodes)
+                    t=getattr(self, "_t", 0), cfg=self.cfg, root=self.root, inodes=inodes, nurand=getattr(self, "nurand", 0))
 
     def restore(self, saved, inodes=True):
         self.content_before = None
@@ -474,6 +474,7 @@ class Lab:
         self.versions = {k: list(v) for k, v in saved["versions"].items()}
         self.time = saved["time"]
         self._t = saved["t"]
+        self.nurand = saved.get("nurand", 0)
         self.cfg = saved["cfg"]
 
     def _rebase_inodes(self, saved):
@@ -598,6 +599,11 @@ class Lab:
         bracket = self.bracket if bracket is None else bracket
         before = self.snap() if bracket else None
         self.scan_versions(before)
+        # the random source: deterministic, but fresh bytes for every command of a lineage (a hash seed drawn by `rehash` differs
+        # from the one drawn by the first sync); the counter travels with saved states
+        self.nurand = getattr(self, "nurand", 0) + 1
+        with open(self.p("etc", "urandom"), "wb") as f:
+            f.write(hashlib.shake_256(b"urandom:%d:%d" % (self.seed, self.nurand)).digest(4096))
         # the recorded state the command starts from (first existing copy), for transition oracles
         self.content_before = None
         self.content_before_cmd = len(self.history) + 1      # index (1-based) of the command this snapshot precedes
